@@ -1,6 +1,6 @@
 From Coq Require Import List String Ascii Bool Arith Lia Sorting.Sorted Permutation.
 Import ListNotations.
-Require Import SDJ.Json SDJ.Model2 SDJ.ATree SDJ.T2a SDJ.T2b SDJ.T2c SDJ.T2d SDJ.T2e SDJ.T2h SDJ.T2k SDJ.T2m SDJ.Issuer1 SDJ.T1a SDJ.T1b SDJ.T1c SDJ.T1d SDJ.T1e SDJ.T1f SDJ.T1g SDJ.T1h SDJ.T1i.
+Require Import SDJ.Json SDJ.Model2 SDJ.ATree SDJ.T2a SDJ.T2b SDJ.T2c SDJ.T2d SDJ.T2e SDJ.T2h SDJ.T2k SDJ.T2m SDJ.Issuer1 SDJ.T1a SDJ.T1b SDJ.T1c SDJ.T1d SDJ.T1e SDJ.T1f SDJ.T1g SDJ.T1h SDJ.T1i SDJ.Restore2.
 Local Open Scope string_scope.
 
 Section T1j.
@@ -115,7 +115,7 @@ Theorem issue_restore_roundtrip C paths salts t' :
   jwf C -> NoDup salts -> mark_fold (embed C) paths salts = Some t' -> aheight t' <= 129 ->
   exists payload ds claims ps,
     issue_fold C paths salts = Ok (payload, ds) /\
-    restore_disclosures H dec show_nat payload (map d_str ds) = Ok (claims, ps) /\
+    restore_passes H dec show_nat payload (map d_str ds) = Ok (claims, ps) /\
     strip claims = C.
 Proof.
   intros HC Hnds Hm Hh.
